@@ -109,6 +109,8 @@ type Machine struct {
 	asciiAssumed bool
 	initNotes    []string
 	envVars      []*Term
+	vinfo        map[int]*varInfo
+	DomDecided   int
 	intrCache    map[*ssa.Function]Intrinsic
 	StubsUsed    map[string]bool
 	FuncsEncoded map[string]bool
